@@ -2,12 +2,14 @@ import QmiModel.Lemmas.C07Basic
 /-! Structure of the pending-request tables (`_pending_subscription_request_by_request_id/_by_signal_name`). -/
 namespace QmiModel.PubSub
 
-/-- consistency of the three pending tables of one context -/
+/-- consistency of the three pending tables of one context (stated without existentials) -/
 structure PendOk (cs : CtxSt) : Prop where
-  byId_obj : ∀ id pid, cs.byId id = some pid → ∃ po, cs.pobj pid = some po ∧ cs.byKey po.key = some pid
+  byId_some : ∀ id pid, cs.byId id = some pid → cs.pobj pid ≠ none
+  byId_key : ∀ id pid po, cs.byId id = some pid → cs.pobj pid = some po → cs.byKey po.key = some pid
   byId_inj : ∀ id id' pid, cs.byId id = some pid → cs.byId id' = some pid → id = id'
   fresh : ∀ id, cs.nextReq ≤ id → cs.byId id = none ∧ cs.pobj id = none
-  byKey_obj : ∀ k pid, cs.byKey k = some pid → ∃ po, cs.pobj pid = some po ∧ po.key = k ∧ po.done = none
+  byKey_some : ∀ k pid, cs.byKey k = some pid → cs.pobj pid ≠ none
+  byKey_obj : ∀ k pid po, cs.byKey k = some pid → cs.pobj pid = some po → po.key = k ∧ po.done = none
 
 def PendInv (s : State) : Prop := ∀ c, PendOk (s.ctx c)
 
@@ -23,10 +25,12 @@ theorem handleReplyStep_pendOk {cs cs' : CtxSt} {id : ReqId} {ok : Bool} {more :
     split at hs
     · simp at hs
     · rename_i po hpo
-      have a1 := h.byId_obj
-      have a2 := h.byId_inj
-      have a3 := h.fresh
-      have a4 := h.byKey_obj
+      have a1 := h.byId_some
+      have a2 := h.byId_key
+      have a3 := h.byId_inj
+      have a4 := h.fresh
+      have a5 := h.byKey_some
+      have a6 := h.byKey_obj
       split at hs
       · simp only [Option.some.injEq, Prod.mk.injEq] at hs
         obtain ⟨rfl, -, -⟩ := hs
@@ -38,5 +42,53 @@ theorem handleReplyStep_pendOk {cs cs' : CtxSt} {id : ReqId} {ok : Bool} {more :
         · simp only [Option.some.injEq, Prod.mk.injEq] at hs
           obtain ⟨rfl, -, -⟩ := hs
           constructor <;> intros <;> simp only [upd] at * <;> grind
+
+set_option maxHeartbeats 1000000 in
+theorem pendInv_micro {s s' : State} {th : Th} {ch ch2 : Nat} {op : MOp} {rest : List MOp} {o : Out}
+    (h : PendInv s) (hs : microStep s th ch ch2 op rest = some (s', o)) : PendInv s' := by
+  have h0 := h th.ctx
+  have a1 := h0.byId_some
+  have a2 := h0.byId_key
+  have a3 := h0.byId_inj
+  have a4 := h0.fresh
+  have a5 := h0.byKey_some
+  have a6 := h0.byKey_obj
+  cases op <;> simp only [microStep] at hs
+  all_goals (try (split at hs))
+  all_goals (try (split at hs))
+  all_goals (try (split at hs))
+  all_goals (try (split at hs))
+  all_goals (try (simp at hs))
+  all_goals (try (obtain ⟨rfl, -⟩ := hs))
+  all_goals (intro c; simp only [setProg_ctx, setCtx_ctx, State.setProg]; (try split))
+  all_goals (try exact h c)
+  all_goals (try (rename_i e; subst e))
+  all_goals (try exact h0)
+  all_goals (try exact handleReplyStep_pendOk h0 ‹handleReplyStep _ _ _ = some _›)
+  all_goals (try (constructor <;> intros <;> simp only [upd, peerRemovedStep] at * <;> grind))
+
+
+theorem PendOk.of_same {a b : CtxSt} (h : PendOk b) (e : SameTables a b) : PendOk a := by
+  have a1 := h.byId_some
+  have a2 := h.byId_key
+  have a3 := h.byId_inj
+  have a4 := h.fresh
+  have a5 := h.byKey_some
+  have a6 := h.byKey_obj
+  constructor <;> intros <;> simp only [e.pobj, e.byId, e.byKey, e.nextReq] at * <;> grind
+
+theorem pendInv_step {s s' : State} {a : Act} {o : Out} (h : PendInv s) (hs : step s a = some (s', o)) : PendInv s' := by
+  by_cases ha : ∃ th ch ch2, a = .micro th ch ch2
+  · obtain ⟨th, ch, ch2, rfl⟩ := ha
+    obtain ⟨-, op, rest, -, hm⟩ := step_micro_inv hs
+    exact pendInv_micro h hm
+  · have ha' : ∀ th ch ch2, a ≠ .micro th ch ch2 := fun th ch ch2 e => ha ⟨th, ch, ch2, e⟩
+    intro c
+    exact (h c).of_same (step_nonmicro_tables ha' hs c)
+
+theorem pendInv_reach {s : State} (h : Reach s) : PendInv s := by
+  induction h with
+  | init => intro c; exact pendOk_init
+  | step _ hs ih => exact pendInv_step ih hs
 
 end QmiModel.PubSub
